@@ -455,10 +455,17 @@ def check_crash(chk, tier, seed):
     with Scratch("c19c") as d:
         def run(i_job):
             i, (fmt, mode, batches, position, kill) = i_job
-            try:
-                return crash_case(fmt, mode, batches, position, kill, seed, d, i)
-            except Exception as e:
-                return {"status": "child-error", "stderr": f"{type(e).__name__}: {e}"}
+            res = None
+            for attempt in range(3):
+                # a child that could not even finish WRITING (harness trouble: the HDF5 library failing to open its file under load was
+                # seen once in ~40 full runs) is repeated with a fresh file; a property verdict (ok / lost / no-flush) is never retried
+                try:
+                    res = crash_case(fmt, mode, batches, position, kill, seed, d, f"{i}_{attempt}")
+                except Exception as e:
+                    res = {"status": "child-error", "stderr": f"{type(e).__name__}: {e}"}
+                if res["status"] != "child-error":
+                    break
+            return res
 
         with cf.ThreadPoolExecutor(max_workers=8) as tp:
             results = list(tp.map(run, enumerate(jobs)))
